@@ -7,7 +7,7 @@ import vlib
 rc, out = vlib.regenerate()
 print(out)
 vlib.coq_project()
-rc, out = vlib.sh(["make", "-k", "-j%d" % vlib.NCPU, "-f", "Makefile.coq"], cwd=vlib.COQ, timeout=3400)
+rc, out = vlib.sh(vlib.coq_make_cmd(), cwd=vlib.COQ, timeout=3400)
 print(out[-4000:])
 if rc != 0:
     print("setup: coq build reported errors (checks will report them per property)")
